@@ -1,5 +1,6 @@
 import Oracle.Common
 import Oracle.C17
+import Oracle.C14
 import Oracle.C15
 import Oracle.C16
 import Oracle.Deps
@@ -13,6 +14,7 @@ open Lean Oracle
 def dispatch (j : Json) : R Json := do
   let op ← fldStr j "op"
   if op.startsWith "c17." then C17.handle op j
+  else if op.startsWith "c14." then C14.handle op j
   else if op.startsWith "c15." then C15.handle op j
   else if op.startsWith "c16." then C16.handle op j
   else if op.startsWith "deps." then Deps.handle op j
